@@ -51,11 +51,66 @@ fn run(j: &Job) -> (String, Ctx) {
     dispatch(j.variant, j.rule, &j.input, j.entry, j.ctx).expect("known job")
 }
 
+/// One round per grammar: three threads start the same parses of that grammar at the same time, so that whatever the
+/// grammar's features initialise lazily on first use (tables, caches, registries) is initialised under contention.
+/// The sequential reference is computed after all rounds.
+fn first_use_rounds(seed: u64) {
+    let mut rng = Rng(seed);
+    let mut rounds: Vec<(Vec<Job>, Vec<Vec<(String, Ctx)>>)> = Vec::new();
+    for (g, inputs) in INPUTS {
+        let vs: Vec<_> = VARIANTS.iter().filter(|v| v.grammar == *g).collect();
+        if vs.is_empty() {
+            continue;
+        }
+        let v = vs[(rng.next() % vs.len() as u64) as usize];
+        let jobs: Vec<Job> = inputs
+            .iter()
+            .rev()
+            .take(2)
+            .map(|i| Job { variant: v.name, rule: v.exported[0], input: i.to_string(), entry: Entry::Parse, ctx: Ctx { retval: 7, a_count: 3, calls: 0 } })
+            .collect();
+        let shared = Arc::new(jobs.clone());
+        let barrier = Arc::new(std::sync::Barrier::new(3));
+        let handles: Vec<_> = (0..3)
+            .map(|_| {
+                let shared = shared.clone();
+                let barrier = barrier.clone();
+                std::thread::spawn(move || {
+                    barrier.wait();
+                    shared.iter().map(run).collect::<Vec<_>>()
+                })
+            })
+            .collect();
+        let results = handles.into_iter().map(|h| h.join().expect("thread")).collect();
+        rounds.push((jobs, results));
+    }
+    let mut bad = 0;
+    for (jobs, results) in &rounds {
+        let reference: Vec<(String, Ctx)> = jobs.iter().map(run).collect();
+        for (t, r) in results.iter().enumerate() {
+            for (i, got) in r.iter().enumerate() {
+                if *got != reference[i] {
+                    bad += 1;
+                    println!("DIFFERENCE first-use round, thread {t} ({}, {:?}): sequential reference {:?}, concurrent {:?}", jobs[i].variant, jobs[i].input, reference[i], got);
+                }
+            }
+        }
+    }
+    if bad == 0 {
+        println!("MIRI_THREADS ok seed={seed} rounds={} threads=3", rounds.len());
+    } else {
+        std::process::exit(1);
+    }
+}
+
 fn main() {
     let seed: u64 = std::env::args().nth(1).and_then(|s| s.parse().ok()).unwrap_or(1);
     let njobs: usize = std::env::args().nth(2).and_then(|s| s.parse().ok()).unwrap_or(20);
     // "ws": only inputs with long whitespace runs through the built-in skipper, parsed by all threads at once
     let mode = std::env::args().nth(3).unwrap_or_default();
+    if std::env::args().nth(3).as_deref() == Some("first") {
+        return first_use_rounds(seed);
+    }
     let mut rng = Rng(seed);
     let mut jobs = Vec::new();
     while jobs.len() < njobs {
@@ -86,8 +141,10 @@ fn main() {
         let k = jobs.len() / 2;
         jobs.insert(k, Job { variant: v.name, rule: v.exported[0], input: big, entry: Entry::Parse, ctx: Ctx::default() });
     }
-    // sequential reference (the same process, before any thread exists)
-    let expected: Vec<(String, Ctx)> = jobs.iter().map(run).collect();
+    // sequential reference: computed before any thread exists, or ("late" as 4th argument) after the threads are done,
+    // so that whatever is initialised lazily on first use is first used concurrently
+    let late = std::env::args().nth(4).as_deref() == Some("late") || mode == "late";
+    let expected: Vec<(String, Ctx)> = if late { Vec::new() } else { jobs.iter().map(run).collect() };
     let jobs = Arc::new(jobs);
     let expected = Arc::new(expected);
     let mut handles = Vec::new();
@@ -101,16 +158,33 @@ fn main() {
                 // each thread walks the job list in its own order, so equal jobs overlap
                 let i = (k * (2 * t as usize + 1) + t as usize * 7) % n;
                 let got = run(&jobs[i]);
-                if got != expected[i] {
-                    bad.push(format!("thread {t} job {i} ({}, {:?}): expected {:?}, got {:?}", jobs[i].variant, jobs[i].input, expected[i], got));
+                if expected.is_empty() {
+                    bad.push((i, got));
+                } else if got != expected[i] {
+                    bad.push((usize::MAX, (format!("thread {t} job {i} ({}, {:?}): expected {:?}, got {:?}", jobs[i].variant, jobs[i].input, expected[i], got), Ctx::default())));
                 }
             }
             bad
         }));
     }
     let mut bad = Vec::new();
+    let mut collected = Vec::new();
     for h in handles {
-        bad.extend(h.join().expect("thread"));
+        for (i, r) in h.join().expect("thread") {
+            if i == usize::MAX {
+                bad.push(r.0);
+            } else {
+                collected.push((i, r));
+            }
+        }
+    }
+    if late {
+        let reference: Vec<(String, Ctx)> = jobs.iter().map(run).collect();
+        for (i, got) in collected {
+            if got != reference[i] {
+                bad.push(format!("job {i} ({}, {:?}): sequential reference {:?}, concurrent {:?}", jobs[i].variant, jobs[i].input, reference[i], got));
+            }
+        }
     }
     if bad.is_empty() {
         println!("MIRI_THREADS ok seed={seed} jobs={njobs} threads=3");
